@@ -150,6 +150,107 @@ Theorem C03_eigensolve_factorisation_current :
 Proof. exact (@eigensolve_cache_correct). Qed.
 Print Assumptions C03_eigensolve_factorisation_current.
 
+(* MODULES WHOSE SENSITIVITY WRITES THEIR MEMORY (smod: EigenSolve creates and refactorises one adjoint solver per mode
+   inside _sensitivity).  run_s / step_s thread the memories through Network.sensitivity as well (sens_sweep).
+   scc h sp = cc plus "every sensitivity pass that follows the response keeps the invariant".  Networks of such
+   modules (ordinary cache-correct modules included: C03_plain_cache_is_sens_cache) are history independent. *)
+Theorem C03_sens_cache_history_independent :
+  forall (K : Type) (NK : Num K), comm_ring K ->
+  forall (keep : nat -> bool) (dims : nat -> nat) (M : Type) (mods : list (smod M)) (specs : list (cspec M))
+         (inputs0 : nat -> list K) (hist sets : list op) (seeds : list (nat * list K)),
+    hwf (map sm_mod mods) = true -> Forall2 scc mods specs -> Forall (h_shaped dims) (pures (map sm_mod mods) specs) ->
+    (forall s, ~ In s (h_written (map sm_mod mods)) -> length (inputs0 s) = dims s) ->
+    only_sets sets -> seeds_shaped dims seeds ->
+    admissible_run_s keep mods (hist ++ [OReset] ++ sets) (fresh dims keep (map sm_mod mods) (map c_mu0 specs) inputs0) ->
+    let xh := run_s keep mods (hist ++ [OReset] ++ sets) (fresh dims keep (map sm_mod mods) (map c_mu0 specs) inputs0) in
+    let xf := run_s keep mods (fresh_cycle seeds) xh in
+    let yf := run_s keep mods (fresh_cycle seeds) (fresh dims keep (map sm_mod mods) (map c_mu0 specs) (s_st xh)) in
+    (forall s, s_st xf s = s_st yf s) /\ ceq dims (s_se xf) (s_se yf).
+Proof. exact (@sens_cache_history_independent). Qed.
+Print Assumptions C03_sens_cache_history_independent.
+
+(* SEVERAL PASSES PER RESPONSE.  After any history, response(); then any number of seed / sensitivity() / reset()
+   calls (mid: passes with whatever seed supports); reset(); seeds; sensitivity() -- WITHOUT a new response() --
+   leaves the states and (up to None = 0) the sensitivities a freshly constructed identical network leaves after
+   response(); seeds; sensitivity() on the current inputs.  (pass_only seeds = seeds; sensitivity().) *)
+Theorem C03_further_pass_on_same_response :
+  forall (K : Type) (NK : Num K), comm_ring K ->
+  forall (keep : nat -> bool) (dims : nat -> nat) (M : Type) (mods : list (smod M)) (specs : list (cspec M))
+         (inputs0 : nat -> list K) (hist mid : list op) (seeds : list (nat * list K)),
+    hwf (map sm_mod mods) = true -> Forall2 scc mods specs -> Forall (h_shaped dims) (pures (map sm_mod mods) specs) ->
+    (forall s, ~ In s (h_written (map sm_mod mods)) -> length (inputs0 s) = dims s) ->
+    forallb pass_op mid = true -> seeds_shaped dims seeds ->
+    admissible_run_s keep mods (hist ++ [OResp] ++ mid ++ [OReset])
+                     (fresh dims keep (map sm_mod mods) (map c_mu0 specs) inputs0) ->
+    let xh := run_s keep mods (hist ++ [OResp] ++ mid ++ [OReset])
+                    (fresh dims keep (map sm_mod mods) (map c_mu0 specs) inputs0) in
+    let xf := run_s keep mods (pass_only seeds) xh in
+    let yf := run_s keep mods (fresh_cycle seeds) (fresh dims keep (map sm_mod mods) (map c_mu0 specs) (s_st xh)) in
+    (forall s, s_st xf s = s_st yf s) /\ ceq dims (s_se xf) (s_se yf).
+Proof. exact (@sens_cache_further_pass_independent). Qed.
+Print Assumptions C03_further_pass_on_same_response.
+
+Theorem C03_plain_cache_is_sens_cache :
+  forall (K M : Type) (h : @hmod K M) (sp : @cspec K M), @cc K M h sp -> @scc K M (lift_s h) sp.
+Proof. exact (@lift_scc). Qed.
+Print Assumptions C03_plain_cache_is_sens_cache.
+
+(* SolverDenseCholesky with its LDL fallback (the solver of dense Hermitian matrices with a one-signed diagonal inside
+   LinSolve / SystemOfEquations / StaticCondensation): memory = (success flag, U, backup factorisation); a failed
+   attempt leaves a stale U, a successful one a stale backup factorisation.  update() sets the flag BOTH ways, so
+   the solver always answers for the matrix of the latest update: LinSolve with this solver is cache-correct
+   (definite -> indefinite -> definite histories included) ... *)
+Theorem C03_mem_invariant_cholesky_fallback :
+  forall (K FU FL : Type) (chol : list K -> option FU) (ldl : list K -> FL)
+         (usolve : FU -> bool -> list K -> list K) (lsolve : FL -> bool -> list K -> list K)
+         (unfactorised : list K) (outer_neg : list K -> list K -> list K) (ins : list ref) (out : nat),
+    cache_correct (chol_linsolve_h FU FL chol ldl usolve lsolve unfactorised outer_neg ins out) (cs_init FU FL, None)
+                  (chol_good FU FL chol ldl usolve lsolve unfactorised) (chol_f FU FL chol ldl usolve lsolve)
+                  (chol_g FU FL chol ldl usolve lsolve outer_neg).
+Proof. exact (@chol_linsolve_cache_correct). Qed.
+Print Assumptions C03_mem_invariant_cholesky_fallback.
+
+(* ... and at the level of one solver object fed A_1, A_2, ...: its k-th answers (normal and transposed solve) are
+   those of a fresh solver that has seen A_k only, from ANY earlier state s *)
+Theorem C03_cholesky_solver_answers_for_latest_matrix :
+  forall (K FU FL : Type) (chol : list K -> option FU) (ldl : list K -> FL)
+         (usolve : FU -> bool -> list K -> list K) (lsolve : FL -> bool -> list K -> list K)
+         (unfactorised : list K) (As : list (list K)) (s : cstate FU FL) (b : list K),
+    chol_answers FU FL chol ldl usolve lsolve unfactorised s As b =
+    flat_map (fun A : list K => [chol_fresh_solve FU FL chol ldl usolve lsolve A false b;
+                                 chol_fresh_solve FU FL chol ldl usolve lsolve A true b]) As.
+Proof. exact (@chol_answers_fresh). Qed.
+Print Assumptions C03_cholesky_solver_answers_for_latest_matrix.
+
+(* EigenSolve (sparse branch) with its per-mode adjoint solvers: unseeded modes are skipped and keep the
+   factorisation of an EARLIER response; adjoint_solvers_need_update is set by every response and never cleared, so a
+   mode that is visited is refactorised first: every pass reads current factorisations only, whatever the seed
+   supports of earlier passes were (eigadj_g uses adj_current = all visited modes freshly factorised). *)
+Theorem C03_mem_invariant_eigensolve_adjoint_solvers :
+  forall (K FA : Type) (afact : list K -> FA) (F : Type) (factorise : list K -> F) (shifted : list (list K) -> list K)
+         (sigma_nonzero : bool) (eigs : F -> list (list K) -> list (list K)) (nmodes : list (list K) -> nat)
+         (modes_of : list (list K) -> list (list K) -> list (list K) -> list (nat * bool * list K))
+         (eig_adj_with : list (list K) -> list (list K) -> list (list K) -> list (nat * option FA) -> list (option (list K)))
+         (ins : list ref) (outs : list nat),
+    scc (eigadj_s FA afact F factorise shifted sigma_nonzero eigs nmodes modes_of eig_adj_with ins outs)
+        {| c_mu0 := (None, false, amem0 FA);
+           c_good := eigadj_good FA F factorise shifted;
+           c_f := eigadj_f F factorise shifted eigs;
+           c_g := eigadj_g FA afact modes_of eig_adj_with |}.
+Proof. exact (@eigadj_scc). Qed.
+Print Assumptions C03_mem_invariant_eigensolve_adjoint_solvers.
+
+(* non-vacuity of the two memories (tag instances, the ones the bookkeeping correspondence of tools/checks/C03.py
+   evaluates): the memories really hold STALE entries.  Adjoint solvers, 3 modes: response 1; pass seeding mode 0;
+   response 2; pass seeding modes 1, 2 (mode 0 still holds [1; 0], the factorisation of response 1); pass seeding
+   mode 0 (refreshed to [2; 0]).  Cholesky: definite, indefinite, definite: every answer names the current matrix. *)
+Example C03_memories_nonvacuous :
+  tag_adj_trace 3 [None; Some [true; false; false]; None; Some [false; true; true]; Some [true; false; false]]
+  = [[Some [1; 0]; None; None]; [Some [1; 0]; Some [2; 1]; Some [2; 2]]; [Some [2; 0]; Some [2; 1]; Some [2; 2]]]%Z /\
+  tag_answers [[1; 1]; [2; 0]; [3; 1]]%Z = [[1]; [1]; [2]; [2]; [3]; [3]]%Z.
+Proof. exact memories_nonvacuous. Qed.
+Print Assumptions C03_memories_nonvacuous.
+
 (* Why "the matrix class is constant within a history" is assumed (agreed scope; LinearSolver.update documents "a new
    matrix of the same structure"): LinSolve keeps `ishermitian` and the solver chosen from it from its FIRST matrix.
    In the 2x2 integer instance a symmetric matrix followed by the non-symmetric [[1,2],[0,1]] with b = [3,1] is
